@@ -17,7 +17,7 @@ import (
 
 func init() {
 	registerProperty(&Property{
-		ID: "C05",
+		ID:          "C05",
 		Explanation: "Decides structural necessary conditions of key-determined placement: (R1) every registered hash and comparison kernel, hash32/hash64, the default partitioner and Frame.Hash/HashWithSeed are pure functions of the row value, the seed and the shard count — they mention no global, map, clock, randomness, pointer identity or task/machine state, and Frame.Hash uses the constant seed 0; (R2) every call of a task's Partitioner passes the frame just read, that task's NumPartition and exactly the first n entries of the shard vector, and row i is then stored to partition shards[i] — at all call sites alike; (R3) the operators that redistribute (Reduce, Fold, Cogroup, Reshuffle/Repartition, Reshard) declare a shuffle dependency, only Repartition forwards a partitioner, and its wrapper writes the user function's result for row i to shards[i]; (R4) compile sizes the producer's partition count and the consumer's task list from the same expression and wires consumer p to partition p of the producer's head task, setting the task group for shuffles; (R5) every Task literal that can be a shuffle producer takes NumPartition/Partitioner/Combiner/CombineKey from the requested partitioning; (R6) the generated kernels equal the template instantiated for the generator's type list. Not decided: quality of the hash, out-of-range results of user partitioners, NaN keys, that aggregations emit each key once (value-level).",
 		Rules: []Rule{
 			{ID: "C05-R1", Doc: "hash/compare kernels and partitioners are pure functions of the value", Run: c05r1},
@@ -26,6 +26,7 @@ func init() {
 			{ID: "C05-R4", Doc: "compile wires consumer p to partition p", Run: c05r4},
 			{ID: "C05-R5", Doc: "Task literals carry their partitioning", Run: c05r5},
 			{ID: "C05-R6", Doc: "generated kernels in sync with the generator", Run: c05r6},
+			{ID: "C05-R7", Doc: "memoised compilations are keyed by (or restricted to zero of) every partitioning field", Run: c05r7},
 		},
 	})
 }
@@ -673,6 +674,40 @@ func c05r5(c *RC) {
 					missing = append(missing, fmt.Sprintf("%s=%q (want %s)", k, f[k], w))
 				}
 			}
+			// the task's row type — whose key prefix is what the partitioner
+			// hashes — is that of the slice being compiled for this consumer
+			sliceP := ""
+			for _, fld := range fn.Type.Params.List {
+				if tv := fn.Pkg.Info.Types[fld.Type]; tv.Type != nil && typeString(tv.Type) == "Slice" && len(fld.Names) > 0 {
+					sliceP = fld.Names[0].Name
+				}
+			}
+			typeOK := false
+			for _, e := range lit.Elts {
+				kv, ok := e.(*ast.KeyValueExpr)
+				if !ok || expr(kv.Key) != "Type" {
+					continue
+				}
+				switch v := ast.Unparen(kv.Value).(type) {
+				case *ast.Ident:
+					typeOK = v.Name == sliceP
+				case *ast.IndexExpr:
+					// slices[0] where slices := pipeline(slice): the outermost
+					// operator of the pipeline is the slice itself
+					if id, ok := v.X.(*ast.Ident); ok && expr(v.Index) == "0" {
+						ast.Inspect(fn.Body, func(m ast.Node) bool {
+							if a, ok := m.(*ast.AssignStmt); ok && len(a.Lhs) == 1 && len(a.Rhs) == 1 && expr(a.Lhs[0]) == id.Name {
+								if k, ok := a.Rhs[0].(*ast.CallExpr); ok && fn.Pkg.CalleeName(k) == "exec.pipeline" && len(k.Args) == 1 && expr(k.Args[0]) == sliceP {
+									typeOK = true
+								}
+							}
+							return true
+						})
+					}
+				}
+			}
+			c.Check(typeOK && sliceP != "", key+"|typed-by-the-compiled-slice", pr.Pos(lit.Pos()),
+				"this Task literal does not take its row type from the slice being compiled: the partitioner hashes the key prefix of the task's type, so with another type (e.g. that of a reused result's task) the shard of a row depends on columns that are not the consumer's key — equal keys land in several shards")
 			// a literal on a path where part.IsShuffle() is known false may omit them only if NumPartition would be 1 anyway — no such literal exists; require always
 			c.Check(len(missing) == 0, key, pr.Pos(lit.Pos()),
 				"this Task literal does not take its partitioning from the requested partitioner: "+strings.Join(missing, ", ")+" — when the task's output feeds a shuffle it is written as 0/1 partitions without the consumer's partitioner, so consumers find no partition p (the executors index partitions[0] of an empty list)")
